@@ -14,3 +14,8 @@ def build(repo, tier, seed):
                      "(== raw without stuffing), every returned frame is closed by a flag and starts after the end of the previous returned frame; proved for _read_next (helpers inlined) "
                      "and for read() through _read_next's contract, in the four reader configurations; unbounded in stream length and chunking (the invariant is the induction hypothesis)")
     return r
+
+def fallback(repo, tier, seed):
+    from pyvc import run
+    b = run.rt_call("C01", "bounded_search", {"seed": seed, "n": 1200 if tier == "quick" else 8000})
+    return [b if "name" in b else {"name": "bounded_search", "error": b.get("error", b)}]
